@@ -1,7 +1,7 @@
 """C07 extended semantics: exact and total on every weakly consistent base."""
 from .. import forms, opsem, ref, scopes
 from ..runner import Check
-from .opcheck import CHUNK, WSIG2, nq_type, qsem2
+from .opcheck import CHUNK, WSIG2, alt_keys, nq_type, qsem2
 
 ALLW = ("strong", "weak-finite", "weak-nofinite")
 WEAK = ("weak-finite", "weak-nofinite")
@@ -35,7 +35,8 @@ class C07(Check):
         for n, (conds, cls, scope) in enumerate(bases):
             via = "parse" if (n + seed) % 4 == 0 else "api"
             qspec = ("list", q2 if (scope == "B1" and (cls != "strong" or not quick)) else qs2)
-            out.append(opsem.make_task(scopes.SIG2, conds, True, self.cfgs, qspec, via=via, wsig=WSIG2, cls=cls, scope=scope))
+            out.append(opsem.make_task(scopes.SIG2, conds, True, self.cfgs, qspec, via=via, wsig=WSIG2, cls=cls, scope=scope,
+                                       keys=alt_keys(n, len(conds)) if via == "api" else None))
         plan = [("L3", 4, WEAK, ("T21", 0), 1), ("L3", 3, ("strong",), (1, 1), 1)] if quick else \
                [("L3", 4, WEAK, (2, 2), 3), ("L3T", 4, WEAK, ("T21", 0), 1), ("L3PLUS", 3, WEAK, ("T21", 0), 1),
                 ("L3", 4, ("strong",), ("T21", 0), 1)]
@@ -48,7 +49,8 @@ class C07(Check):
                 nch = max(1, -(-nq // 150))
                 for ch in range(nch):
                     out.append(opsem.make_task(scopes.SIG3, conds, True, self.cfgs, ("type", tq[0], tq[1], True), via=via,
-                                               cls=cls, scope="B3(%d)-%s" % (size, alpha_name), qslice=(ch, nch)))
+                                               cls=cls, scope="B3(%d)-%s" % (size, alpha_name), qslice=(ch, nch),
+                                               keys=alt_keys(i, len(conds)) if via == "api" else None))
         return out
 
     def run(self, task):
